@@ -194,6 +194,38 @@ fn d24() -> Result<(), String> {
         Err(o) => Err(o.show()),
     }
 }
+const R3: &str = "CREATE TABLE t(line = '^([^;]*);([0-9-]*);([0-9-]*)$', line[1] => r REAL, line[2] => v INT, line[3] => w INT);";
+// D60 (C11): GROUP BY over REAL keys 0.0 / -0.0 (equal in the value order, printed differently): the table shown after
+// the second line fed incrementally must equal the batch table over both lines
+fn d60() -> Result<(), String> {
+    let lines: Vec<String> = vec!["0.0;;1".to_owned(), "-0.0;1;2".to_owned()];
+    let q = "SELECT r, COUNT(v), PERCENTILE(w, 0.5) FROM t GROUP BY r";
+    let follow = match run_incremental(R3, q, &lines) {
+        Ok(steps) => match steps.last().unwrap() { Some((_, rows)) => format!("{:?}", rows), None => "none".to_owned() },
+        Err(o) => return Err(o.show()),
+    };
+    let batch = match run_engine_batch(R3, q, &lines) { RowsOutcome::Rows { rows, .. } => format!("{:?}", rows), other => format!("{:?}", other) };
+    if follow == batch { Ok(()) } else { Err(format!("after line 2 follow mode shows {} but a batch run over both lines gives {}", follow, batch)) }
+}
+// D61 (C11): aggregate over a JOIN in follow mode, a line with two partners: the refresh must be ONE table (the batch table)
+fn d61() -> Result<(), String> {
+    let p = tmp_file("B;x;1\nB;y;1\n".as_bytes());
+    let q = format!("SELECT COUNT(*) FROM a INNER JOIN b::'{}' ON a.k = b.k", p.display());
+    let r = catch(|| -> Result<usize, String> {
+        let tables = parse_tables(J2)?;
+        let statement = sqlgrep::parsing::parse(&q).map_err(|e| format!("parse: {}", e))?;
+        let mut engine = sqlgrep::execution::execution_engine::ExecutionEngine::with_executed_joined_table(&tables, &statement).map_err(|e| format!("join: {}", e))?;
+        let o = engine.execute("A;m;1".to_owned(), &sqlgrep::execution::execution_engine::ExecutionConfig::default()).map_err(|e| format!("exec: {}", e))?;
+        Ok(o.result_row.map(|r| r.data.len()).unwrap_or(0))
+    });
+    let _ = std::fs::remove_file(p);
+    match r {
+        Caught::Done(Ok(1)) => Ok(()),
+        Caught::Done(Ok(n)) => Err(format!("the refresh after a line with two join partners shows {} rows (one table per partner, concatenated: [1], [2]); a batch run shows the one row [2]", n)),
+        Caught::Done(Err(e)) => Err(e),
+        Caught::Panic(m) => Err(m),
+    }
+}
 fn d26() -> Result<(), String> {
     expect_no_panic(run_batch(T3, "SELECT abs(v) FROM t", "a;-9223372036854775808;1\n"))?;
     expect_no_panic(run_batch(T3, "SELECT -v FROM t", "a;-9223372036854775808;1\n"))?;
@@ -379,6 +411,8 @@ pub fn all() -> Vec<Witness> {
         w!("D21", &["C07"], "join fan-out overshoots LIMIT", d21),
         w!("D22", &["C07"], "NULL-only rows are not counted by LIMIT", d22),
         w!("D23", &["C08"], "aggregate DISTINCT without HAVING keeps duplicates", d23),
+        w!("D60", &["C11"], "REAL keys 0.0 / -0.0: follow mode and batch mode show different representatives of one group", d60),
+        w!("D61", &["C11"], "follow mode, aggregate over a join: a line with several partners shows one table per partner, concatenated", d61),
         w!("D24", &["C08", "C11"], "aggregate DISTINCT+HAVING empties the table on refresh", d24),
         w!("D25", &["C09"], "TIMESTAMP text in a DST gap / overlap of the local zone panics (unwrap of LocalResult)", d25),
         w!("D53", &["C03"], "IN / NOT IN do not compare their members like = (timestamp text not parsed, other types silently false)", d53),
